@@ -358,6 +358,8 @@ def body_E2(ctx):
     K = BURSTS[ctx.choose(len(BURSTS), "burst size")]
     stall_at = ctx.choose(3, "the destination stalls on its n-th message")
     fails = ctx.flag("the stalled write finally raises")
+    # a run of consecutive failures at the start of the burst: each loses only its own message
+    nfail = [0, 10, 40][ctx.choose(3, "consecutive failing writes")] if K >= 100 else 0
     gate = SchedLock(sched)
     stalled = SchedQueue(sched)
 
@@ -370,6 +372,8 @@ def body_E2(ctx):
             gate.release()
             if fails:
                 raise Boom(msg["id"])
+        elif stall_at < msg["id"] <= stall_at + nfail:
+            raise Boom(msg["id"])
 
     class Reactor(object):
         def getThreadPool(self):
@@ -426,10 +430,10 @@ def body_E2(ctx):
     ctx.check(written == list(range(stall_at + 1 + K)), "after a burst of %d messages behind a stalled write the destination got %d messages, first difference at %r", K, len(written), next((i for i, (a, b) in enumerate(zip(written, range(stall_at + 1 + K))) if a != b), min(len(written), stall_at + 1 + K)))
     ctx.check(all(e[2] == "reader" for e in log if e[0] == "written"), "destination called off the reader thread")
     ctx.check(state.get("stopped") == (True, False), "stop handle / reader state after the burst: %r", state.get("stopped"))
-    ctx.nontrivial((K, stall_at, fails))
+    ctx.nontrivial((K, stall_at, fails, nfail))
     if K > 1000:
         ctx.reached("large-burst")
-    ctx.sample({"burst": K, "stall_at": stall_at, "stalled_write_raises": fails, "written": len(written)})
+    ctx.sample({"burst": K, "stall_at": stall_at, "stalled_write_raises": fails, "consecutive_failures": nfail, "written": len(written)})
 
 
 def E2() -> bool:
@@ -454,7 +458,7 @@ def _shards(tier):
 OBLIGATIONS_TAIL = [
     Ob("E2", E2, body_E2, "X", desc="a burst of writer(msg) calls while the wrapped destination is stuck inside a write: every call returns, nothing is lost or reordered", functions=["ThreadedWriter.__call__", "_reader", "stopService"],
        twin=[{"twin_label": "large-burst"}], timeout={"quick": 100, "thorough": 300},
-       bounds={"quick": "burst sizes {1, 2, 100, 1000, 1001, 2500, 6000} behind a write stalled on the 1st/2nd/3rd message, which then returns or raises; forced switches only (call granularity)"}),
+       bounds={"quick": "burst sizes {1, 2, 100, 1000, 1001, 2500, 6000} behind a write stalled on the 1st/2nd/3rd message, which then returns or raises; for bursts >= 100 the first 0, 10 or 40 writes of the burst raise; forced switches only (call granularity)"}),
 ]
 
 OBLIGATIONS = [
